@@ -80,6 +80,8 @@ struct htp_decompressor_gzip_t {
     CLzmaDec state;
     unsigned char *buffer;
     unsigned long crc;    
+    unsigned char *head;    /**< compressed data seen before the first decompressed byte, NULL when not kept */
+    size_t head_len;        /**< number of bytes in head; (size_t) -1 once nothing more is kept */
 };
 
 htp_decompressor_t *htp_gzip_decompressor_create(htp_connp_t *connp, enum htp_content_encoding_t format);
